@@ -659,6 +659,23 @@ func checkC06(c *Ctx) {
 			if isSort && len(cl.Call.Args) >= 1 && (strip(cl.Call.Args[0]) == res || sameValue(cl.Call.Args[0], res) || sameCellUnwrittenAfter(cl.Call.Args[0], res, cl)) && instrDominates(cl, r) {
 				okSort = true
 			}
+			// the translated list handed back as a field of a result struct (`return roster{nodes: …,
+			// parties: parties}, nil`): the sorted value is what that field is given
+			if isSort && !okSort && len(cl.Call.Args) >= 1 && instrDominates(cl, r) {
+				rv := retResult(r, 0)
+				var rst *types.Struct
+				if st, ok := rv.Type().Underlying().(*types.Struct); ok {
+					rst = st
+				} else if pt, ok := rv.Type().Underlying().(*types.Pointer); ok {
+					rst, _ = pt.Elem().Underlying().(*types.Struct)
+				}
+				for i := 0; rst != nil && i < rst.NumFields(); i++ {
+					fv := structFieldValue(rv, rst.Field(i), 0)
+					if fv != nil && (strip(fv) == strip(cl.Call.Args[0]) || sameValue(fv, cl.Call.Args[0]) || sameCellUnwrittenAfter(cl.Call.Args[0], strip(fv), cl)) {
+						okSort = true
+					}
+				}
+			}
 		}
 		c.Check(okSort, G1, FuncName(translate), "result sorted before the success return", m.Pos(r.Pos()), "sortPartyIdentifiers(res) dominates return res, nil", "parties initialise their backends with differently ordered party lists")
 	}
